@@ -34,12 +34,14 @@ type Scenario struct {
 	DescToo bool
 	// LazyToo: likewise for the third base schedule (spawned goroutines start late, vsched.Config.LazyStart)
 	LazyToo bool
+	// LazyDescToo: and for the combination (lazy start + descending ids)
+	LazyDescToo bool
 }
 
 // AllParams returns the tuples of a tier including the derived "-desc" variants.
 func (sc *Scenario) AllParams(tier string) []Param {
 	ps := sc.Params(tier)
-	if !sc.DescToo && !sc.LazyToo {
+	if !sc.DescToo && !sc.LazyToo && !sc.LazyDescToo {
 		return ps
 	}
 	var out []Param
@@ -63,6 +65,11 @@ func (sc *Scenario) AllParams(tier string) []Param {
 			}
 			if sc.LazyToo {
 				out = append(out, variant(p, "lazy", "-lazy"))
+			}
+			if sc.LazyDescToo {
+				q := variant(p, "lazy", "-lazydesc")
+				q.V["desc"] = 1
+				out = append(out, q)
 			}
 		}
 	}
